@@ -50,6 +50,9 @@ CHECKS = {
     "C13": ("model_checking", GRID + "; plus conformance of every epoch of scripted real groups to the reference (shadow joiner)",
             "Every derivation (key schedule, secret tree, per-generation keys, PSK chain, exporter, ExpandWithLabel) is compared with an independent RFC 9420 implementation over an enumerated input grid for every suite of every provider, and every epoch of scripted real groups is re-derived by the reference from the Welcome's joiner secret / the previous init secret and compared with what the members hold, including transcript hashes and tags recomputed from wire bytes.",
             "Trusted: reference::keysched on sha2/hmac; hook derive::* (thin wrappers over the crate-private functions) and verif_epoch_keys (read-only).", "DESIGN.md 2/C13"),
+    "C14": ("model_checking", "bounded-exhaustive enumeration of an input grid (lengths, malformed keys, certificate chain defects x validation times) through every pair of shipped providers side by side, plus bounded-exhaustive exploration of mixed-provider groups (every assignment of 3 providers to 4 parties, stateless DFS over real members)",
+            "For every pair of providers and every common suite all deterministic primitives are byte-compared over a length grid, randomised ones are cross-consumed in both directions (signatures, HPKE base/PSK, setup_s/setup_r, export), malformed keys / tags / lengths must get the same verdict, every provider assignment of a 4-party group is driven through all short histories with the C01 agreement oracle, and generated certificate chains (depth 1-3 x 10 defect kinds x 5 validation times at the validity boundaries) must get the same and the implied verdict from the three X.509 validators.",
+            "Trusted: the `openssl` crate as certificate generator. Providers are compared with each other, not with test vectors (C13 compares the derivations with an independent reference).", "DESIGN.md 2/C14"),
     "C16": ("model_checking", MC + "; observers (ExternalGroup) at every start epoch and jitter setting are driven along every explored history",
             "On an exhaustive history traversal with public handshake messages, observers created at every epoch with every max_epoch_jitter setting must accept exactly what members accept, hold the members' context/roster/tree after every commit (also across snapshot/load), refuse corrupted, replayed and unresolvable commits, let ciphertexts through exactly inside the configured window without ever panicking, and have their external-sender proposals accepted and committed by members.",
             "Trusted: explorer, reference framing parser (signature offset). Same bounds as C01 (depth 3 quick / 4 thorough).", "DESIGN.md 2/C16"),
